@@ -102,15 +102,46 @@ func buildSpec(a *analysed, randText string) gorun.Spec {
 		if u == "" {
 			continue
 		}
+		// the members values are drawn from come from the go/types facts (every named type of the
+		// package that implements the interface, promoted methods included), NOT from the analysis
+		// under test: a member the analysis lost is still put into union positions
 		var ms []string
 		ok := true
-		for _, m := range d.UMembers {
-			md := decl[m.Q]
-			if md == nil || expr(md) == "" || len(md.TArgs) > 0 {
-				ok = false
-				break
+		if a.FB != nil {
+			for _, pf := range a.FB.Pkgs {
+				for _, tq := range pf.Types {
+					for _, iq := range pf.Implements[tq] {
+						if iq != d.Q {
+							continue
+						}
+						tf := a.FB.Types[tq]
+						if tf == nil || len(tf.TArgs) > 0 || tf.HasTParams {
+							ok = false
+							continue
+						}
+						e := ""
+						if tf.PkgPath == a.Env.PkgPath {
+							e = tf.Name
+						} else if n, has := importName[tf.PkgPath]; has && exportedName(tf.Name) {
+							e = n + "." + tf.Name
+						}
+						if e == "" {
+							ok = false
+							continue
+						}
+						ms = append(ms, e)
+					}
+				}
 			}
-			ms = append(ms, expr(md))
+		} else {
+			for _, m := range d.UMembers {
+				md := decl[m.Q]
+				if md == nil || expr(md) == "" || len(md.TArgs) > 0 {
+					ok = false
+					break
+				}
+				ms = append(ms, expr(md))
+			}
 		}
 		if ok && len(ms) > 0 {
 			s.Unions[u] = ms
@@ -120,7 +151,10 @@ func buildSpec(a *analysed, randText string) gorun.Spec {
 }
 
 // supportedEnv: no pointer anywhere and only basic kinds gomacro knows (the quantifier of C02/C03/C15)
-func supportedEnv(env *irdump.Env) bool {
+func supportedEnv(env *irdump.Env) bool { return supportedEnvOpt(env, false) }
+
+// supportedEnvOpt: with pointers = true, pointer types are accepted (randdata generates them)
+func supportedEnvOpt(env *irdump.Env, pointers bool) bool {
 	var ok func(t *irdump.Ty) bool
 	ok = func(t *irdump.Ty) bool {
 		if t == nil {
@@ -128,6 +162,9 @@ func supportedEnv(env *irdump.Env) bool {
 		}
 		switch t.K {
 		case "ptr":
+			if pointers {
+				return ok(t.E)
+			}
 			return false
 		case "basic":
 			return t.BK != "none" && t.BK != ""
